@@ -46,9 +46,37 @@ func driveRingBig(opt *Options) error {
 			mk, unit = newRingInt, false
 		}
 		huge := c > 1<<20
+		vast := unit && t%14 == 3 // zero-size elements cost nothing: a capacity at the top of the int range
+		if vast {
+			c = math.MaxInt - 1 - rnd.Intn(3)
+		}
 		o := mk(c)
 		next := 1 + rnd.Intn(1000)
-		tw.Emit(map[string]any{"op": "New", "cap": c, "first": next, "unit": unit})
+		logCap := c
+		if logCap > 1<<31-1 {
+			logCap = 1<<31 - 1 // (TLC's integers; the script below stays far away from the capacity)
+		}
+		tw.Emit(map[string]any{"op": "New", "cap": logCap, "first": next, "unit": unit})
+		if vast {
+			dead := false
+			step := func(s Step) {
+				if dead {
+					return
+				}
+				var got Step
+				if p, pv := callPanics(func() { got = ringBigApply(o, s, &next) }); p {
+					got, dead = Step{"op": s.Str("op"), "crash": fmt.Sprint(pv)}, true
+				}
+				got["nz"] = 0
+				tw.Emit(got)
+			}
+			for _, s := range []Step{{"op": "Len"}, {"op": "WriteRun", "n": 3}, {"op": "Len"}, {"op": "Read"}, {"op": "Skip", "n": 1},
+				{"op": "At", "i": 0}, {"op": "At", "i": 1}, {"op": "Len"}, {"op": "WriteRun", "n": 70}, {"op": "ReadN", "n": 64},
+				{"op": "Len"}, {"op": "Clear"}, {"op": "Len"}, {"op": "Read"}} {
+				step(s)
+			}
+			continue
+		}
 		dead := false
 		do := func(s Step) {
 			if dead {
